@@ -289,13 +289,14 @@ func parseOptsGo(s string) (opts []lz4.Option, kv map[string]int) {
 
 // frame tracks what one frame (between Resets) should contain, for the oracle.
 type frameTrack struct {
-	data    []byte
-	clean   bool // every op succeeded so far
-	closed  bool
-	atClose string // sink summary when the first Close returned
-	flushed bool   // a Flush cut a block short (legacy: blocks then hold less than 8 MiB)
-	usedRF  bool   // ReadFrom delivered data (it ends a source that is a multiple of the block size with an empty block)
-	opts    map[string]int
+	data     []byte
+	clean    bool // every op succeeded so far
+	closed   bool
+	closedOK bool   // a Close returned nil
+	atClose  string // sink summary when the first Close returned
+	flushed  bool   // a Flush cut a block short (legacy: blocks then hold less than 8 MiB)
+	usedRF   bool   // ReadFrom delivered data (it ends a source that is a multiple of the block size with an empty block)
+	opts     map[string]int
 }
 
 // freshFrame: the bytes a NEW Writer with these options emits for one Write of data followed by Close
@@ -466,8 +467,11 @@ func implW(f []string, o *oracleSink) string {
 				return errName(err)
 			case "c":
 				before := sink.calls()
-				wasClosed := tr.closed
+				wasClosed := tr.closedOK // a Close that failed drained nothing: the pipeline may still be writing
 				err := zw.Close()
+				if err == nil {
+					tr.closedOK = true
+				}
 				if !tr.closed && err == nil {
 					tr.atClose = sink.summary() // what the sink holds at the moment a successful Close returns
 				}
